@@ -182,6 +182,27 @@ def run(cfg, V):
                 bad.append(("CreateFromFloat", v, str(fv)))
         except Exception as e:  # noqa
             bad.append(("CreateFromFloat", v, type(e).__name__))
+    # integer powers of a Fraction against exact rational arithmetic (negative bases and negative exponents included)
+    import fractions as _fr
+
+    for p in (-5, -2, -1, 1, 2, 3, 7):
+        for q in (1, 2, 3, 7):
+            for e in range(-4, 5):
+                try:
+                    got = Fraction(p, q) ** e
+                    want = _fr.Fraction(p, q) ** e
+                    if _fr.Fraction(got.x if hasattr(got, "x") else got) != want:
+                        bad.append(("fraction-pow", p, q, e, str(got), str(want)))
+                except Exception as ex:  # noqa
+                    bad.append(("fraction-pow", p, q, e, type(ex).__name__))
+    # history: a value built WITHOUT a fraction is edited in place; values built without a fraction afterwards are untouched by that
+    v0 = FractionValue(3)
+    v0.fraction.numerator = 1
+    v0.fraction.denominator = 2
+    for mk_, want in ((lambda: FractionValue(7), 7.0), (lambda: FractionValue(0.5), 0.5), (lambda: FractionValue.CreateFromFloat(4.0), 4.0), (lambda: FractionScalar(2.0, "in").GetValue(), 2.0)):
+        got = mk_()
+        if float(got) != want:
+            bad.append(("default-fraction-shared", want, float(got)))
     # a plain float operand is read as the short decimal it prints as (0.1 -> 1/10) by EVERY operator alike
     import fractions
     import operator
@@ -260,7 +281,7 @@ def props(cfg, T, obs):
                 ("the source keeps its unit and its fraction", bool(obs["unit_kept"]) and bool(obs["src_untouched"]))]
     if k == "fs_valid":
         return [("a FractionScalar validates exactly like a Scalar holding float(value)", bool(obs["fs_valid"]) == bool(obs["s_valid"]))]
-    return [("auxiliary concrete grid: format->parse, CreateFromFloat and float operands of Fraction operators preserve the amount (not solver-decided)", obs["aux_bad"] == [])]
+    return [("auxiliary concrete grid: format->parse, CreateFromFloat, float operands and integer powers of Fraction, default-constructed values preserve the amount (not solver-decided)", obs["aux_bad"] == [])]
 
 
 def finding_key(cfg, name):
